@@ -244,7 +244,14 @@ def subchecks(tier):
     wl = {"capacity": 1.0, "self_loops": 0.7, "priorities": 0.2, "routing_objects": 0.2, "batching": 0.2}
     longfb = S.Profile(list(wl), weights=wl, required=("capacity",), numeric="cont", min_nodes=2, max_nodes=3, max_classes=2, plans=("until_deadlock",),
                        horizon=(5.0, 10.0), budget=9000, caps=(1, 2, 2, 3), load="heavy", stay=0.85, max_c=3)
+    wu = dict(w, priorities=1.0, prio_preempt=1.0, cc_waiting=1.0)
+    upgrade = S.Profile(ALLOWED + ["prio_preempt", "cc_waiting"], weights=wu, required=("capacity", "priorities", "prio_preempt", "cc_waiting"), numeric="mixed",
+                        max_nodes=3, max_classes=3, plans=("until_deadlock",), horizon=(5.0, 10.0), budget=700, caps=(0, 0, 1, 1, 2), load="heavy", stay=0.6)
     return [
+        system_subcheck("preempt_upgrade", upgrade, lambda spec: [DeadlockOracle()], nontrivial, classes=classes, spec_filter=post_filter,
+                        n={"quick": 3000, "thorough": 30000},
+                        rule="pre-emptive priorities (resume / restart / resample) and priority-raising class changes while waiting in blocking networks: servers change "
+                             "hands without anybody leaving the node; same oracle"),
         system_subcheck("long_feedback", longfb, lambda spec: [DeadlockOracle()], lambda a, spec, res: a.get("events", 0) >= 2500 and a.get("resolved_blockages", 0) >= 20,
                         classes=classes, spec_filter=lambda spec: dict(post_filter(spec), event_budget=9000), n={"quick": 64, "thorough": 800},
                         rule="2-3 multi-server nodes with waiting room and much feedback: the same customers are blocked several times, on different servers, "
